@@ -517,9 +517,54 @@ def r5(ctx):
     ctx.touch(it)
     ok = any(t["f"].get("name") == "next" for _, t in it.calls())
     ctx.check(ok, "C16.R5", it.path, "forwards-every-row", "next() forwards the underlying range's next()", it.sp)
+    # the iterator evaluated (K6') call after call over scripted table rows - live entries, deletion markers, a failing row:
+    # the hash of every live entry is reported wherever it sits (a marker or a failing row in front of it does not end the
+    # list), a failing row is reported as a failure (the collector must not run on a partial list), nothing is invented
+    from . import feval as E
+    for label, rows in (("live,live", ["e0", "e1"]), ("marker,live,live", ["m0", "e1", "e2"]), ("live,marker,marker,live", ["e0", "m1", "m2", "e3"]),
+                        ("live,failing-row,live", ["e0", "x1", "e2"]), ("marker", ["m0"]), ("no-rows", [])):
+        pos = [0]
+
+        def oracle(kind, name, payload, site, rows=rows):
+            if kind != "call":
+                return None
+            t, args, itp = payload
+            names = [itp.tokname(a).strip("&*") for a in args]
+            if name == "next" and (callee_matches(t, r"RecordsRange") or (names and names[0].endswith("range"))):
+                i = pos[0]
+                pos[0] += 1
+                if i >= len(rows):
+                    return E.NONE
+                return E.Some(E.Err(E.Tok("storage-error")) if rows[i].startswith("x") else E.Ok(E.Tok(rows[i])))
+            if name == "is_empty" and names:
+                return E.Int(1 if names[0].split("(")[-1].rstrip(")").startswith("m") else 0)
+            if name == "content_hash" and names:
+                return E.Tok("hash(%s)" % names[0])
+            if name in ("entry", "record") and names:
+                return args[0]
+            return None
+        out = []
+        got_err = None
+        heap = {"self": E.struct(f, "store::fs::ContentHashesIterator", range=E.Tok("range"))}
+        try:
+            for _ in range(len(rows) + 3):
+                ret, heap, ev_ = E.run(f, it.path, [E.href("self")], heap, oracle)
+                d = E.describe(ret, f)
+                out.append(d)
+                if d == "None":
+                    break
+        except E.Unsupported as e:
+            got_err = "UNSUPPORTED-FORM: %s" % e
+        want_live = ["Some(Ok(hash(%s)))" % r for r in rows if r.startswith("e")]
+        live = [o for o in out if o.startswith("Some(Ok(hash(e")]
+        errs = [o for o in out if o.startswith("Some(Err(")]
+        extra = [o for o in out if o not in live and o not in errs and o != "None" and not o.startswith("Some(Ok(hash(m")]
+        okc = got_err is None and live == want_live and len(errs) == sum(1 for r in rows if r.startswith("x")) and not extra and out and out[-1] == "None" and pos[0] >= len(rows)
+        ctx.check(okc, "C16.R5", it.path, "reports-every-held-hash[%s]" % label,
+                  "rows %s: next() yields %s%s; spec: the hash of every live entry in table order, a failure for the failing row, the end only after the last row" % (rows, out, (" " + got_err) if got_err else ""), it.sp)
     # gc protect: the documents' hashes reach the collector, and any failure on the way aborts the collection run
     gc_protect(ctx)
-    ctx.floor("C16.R5", 13)
+    ctx.floor("C16.R5", 19)
 
 
 def r6(ctx):
